@@ -60,6 +60,11 @@ pub fn options(fs: Arc<dyn FileSystem>, k: &Knobs, create_if_missing: bool) -> D
         c.knobs.insert("min_allowed_seeks".into(), k.min_allowed_seeks as i64);
         c.knobs.insert("opt_sync_mode".into(), k.sync_mode as i64);
         c.knobs.insert("opt_fill_cache_mode".into(), k.fill_cache_mode as i64);
+        if k.read_bytes_period > 0 {
+            c.knobs.insert("iteration_read_bytes_period".into(), k.read_bytes_period as i64);
+        } else {
+            c.knobs.remove("iteration_read_bytes_period");
+        }
     });
     DbOptions {
         db_path: DB_PATH.to_string(),
